@@ -5,6 +5,7 @@
 -/
 import BlocV.Proofs.Lemmas.OpsCases
 import BlocV.Model.Builtins
+import BlocV.Proofs.Lemmas.NoHazard
 
 namespace BlocV
 open Num
@@ -226,18 +227,124 @@ theorem lrSubstr_no_hazard (left : Bool) (args : List (Res Val)) (h : ArgsOk arg
     repeat' haz_step
   · rfl
 
-/-- Dispatch: every modelled built-in except `substr`, `subraw` and `hex` (whose index arithmetic is signed and
-unguarded: known findings C01.bi.substr.overflow / subraw.overflow / hex.overflow). -/
+/-! #### substr / subraw / hex / abs / pow (after the repairs e2c4824, cbe22cc, fde74fa, eec6e8e) -/
+
+/-- The length of a string / byte-array value fits `int64_t` — what every `std::string::size()` /
+`std::vector::size()` satisfies; `substr`/`subraw` store it into an `int64_t` and do signed arithmetic on it. -/
+def Val.lenOk : Val → Bool
+  | .str s => decide (s.length < 2 ^ 63)
+  | .raw s => decide (s.length < 2 ^ 63)
+  | _ => true
+
+def ArgsLen (args : List (Res Val)) : Prop := ∀ t ∈ args, ∀ v, t = .ok v → v.lenOk = true
+
+/-- The signed index arithmetic of `substr`/`subraw` (`a + c`, `c - a`) cannot overflow for a length
+`c ≥ 0`, whatever the position and the count — INT64_MIN included (guard `a < 0 ? 0 : …`). -/
+theorem substrRange_no_hazard (c a0 b : Int64) (hc : 0 ≤ c.toInt) : (substrRange c a0 b).isHazard = false := by
+  obtain ⟨a, b', h, _⟩ := Lemmas.substrRange_spec c a0 b hc
+  rw [h]; rfl
+
+theorem substrRange_nh_str {v : Val} {s : Bytes} (hl : v.lenOk = true) (hg : v.asStr = .ok s) (a0 b : Int64) :
+    (substrRange (lenI s) a0 b).isHazard = false := by
+  have := Lemmas.asStr_ok v s hg
+  subst this
+  have hlen : s.length < 2 ^ 63 := by simpa [Val.lenOk] using hl
+  exact substrRange_no_hazard _ _ _ (by rw [Lemmas.lenI_toInt s hlen]; omega)
+
+theorem substrRange_nh_raw {v : Val} {s : Bytes} (hl : v.lenOk = true) (hg : v.asRaw = .ok s) (a0 b : Int64) :
+    (substrRange (lenI s) a0 b).isHazard = false := by
+  have := Lemmas.asRaw_ok v s hg
+  subst this
+  have hlen : s.length < 2 ^ 63 := by simpa [Val.lenOk] using hl
+  exact substrRange_no_hazard _ _ _ (by rw [Lemmas.lenI_toInt s hlen]; omega)
+
+theorem biSubstr_no_hazard (args : List (Res Val)) (h : ArgsOk args) (hl : ArgsLen args) :
+    (biSubstr (m := Res) args).isHazard = false := by
+  unfold biSubstr substrLike
+  split
+  · rename_i t0 t1 rest
+    have h0 := h.head
+    have h1 := h.tail.head
+    have hr := h.tail.tail
+    simp only [liftM_res, liftR_res, argTypeErr_res]
+    refine isHazard_bind _ _ h0.1 (fun val hv => ?_)
+    have w0 := h0.2 val hv
+    have l0 : val.lenOk = true := hl t0 (List.mem_cons_self ..) val hv
+    repeat' (first | (with_reducible exact substrRange_nh_str ‹_› ‹_› _ _) | haz_step)
+  · rfl
+
+theorem biSubraw_no_hazard (args : List (Res Val)) (h : ArgsOk args) (hl : ArgsLen args) :
+    (biSubraw (m := Res) args).isHazard = false := by
+  unfold biSubraw substrLike
+  split
+  · rename_i t0 t1 rest
+    have h0 := h.head
+    have h1 := h.tail.head
+    have hr := h.tail.tail
+    simp only [liftM_res, liftR_res, argTypeErr_res]
+    refine isHazard_bind _ _ h0.1 (fun val hv => ?_)
+    have w0 := h0.2 val hv
+    have l0 : val.lenOk = true := hl t0 (List.mem_cons_self ..) val hv
+    repeat' (first | (with_reducible exact substrRange_nh_raw ‹_› ‹_› _ _) | haz_step)
+  · rfl
+
+/-- `hex`: the pad count is clamped to 16 before the digit loop, so `n += 1` never overflows. -/
+theorem biHex_no_hazard (args : List (Res Val)) (h : ArgsOk args) : (biHex (m := Res) args).isHazard = false := by
+  unfold biHex
+  split
+  · have h0 := h.head
+    have hr := h.tail
+    simp only [liftM_res, liftR_res, argTypeErr_res]
+    repeat' (first | (with_reducible exact Lemmas.hexStr_nh _ _) | haz_step)
+  · rfl
+
+/-- `abs`: the integer cell is computed in `uint64_t` (wraps at INT64_MIN), no signed negation. -/
+theorem biAbs_no_hazard (args : List (Res Val)) (h : ArgsOk args) : (biAbs (m := Res) args).isHazard = false := by
+  unfold biAbs
+  split
+  · have h0 := h.head
+    simp only [liftM_res, liftR_res, argTypeErr_res]
+    repeat' haz_step
+  · rfl
+
+theorem asInt_nhL {a b : Val} (hw : a.tabOk = true) (hn : ¬(a.isNull || b.isNull) = true) : a.asInt.isHazard = false :=
+  asInt_no_hazard hw (by simp only [Bool.or_eq_true, not_or, Bool.not_eq_true] at hn; exact hn.1)
+theorem asInt_nhR {a b : Val} (hw : a.tabOk = true) (hn : ¬(b.isNull || a.isNull) = true) : a.asInt.isHazard = false :=
+  asInt_no_hazard hw (by simp only [Bool.or_eq_true, not_or, Bool.not_eq_true] at hn; exact hn.2)
+theorem asNum_nhL {a b : Val} (hw : a.tabOk = true) (hn : ¬(a.isNull || b.isNull) = true) : a.asNum.isHazard = false :=
+  asNum_no_hazard hw (by simp only [Bool.or_eq_true, not_or, Bool.not_eq_true] at hn; exact hn.1)
+theorem asNum_nhR {a b : Val} (hw : a.tabOk = true) (hn : ¬(b.isNull || a.isNull) = true) : a.asNum.isHazard = false :=
+  asNum_no_hazard hw (by simp only [Bool.or_eq_true, not_or, Bool.not_eq_true] at hn; exact hn.2)
+
+/-- `pow`: integer × integer is `Num.ipow` (exact, modulo 2^64), no double → integer conversion. -/
+theorem biPow_no_hazard (args : List (Res Val)) (h : ArgsOk args) : (biPow (m := Res) args).isHazard = false := by
+  unfold biPow
+  split
+  · have h0 := h.head
+    have h1 := h.tail.head
+    simp only [liftM_res, liftR_res, argTypeErr_res]
+    repeat' (first
+      | (with_reducible exact ipow_no_hazard _ _)
+      | (with_reducible exact asInt_nhL ‹_› ‹_›) | (with_reducible exact asInt_nhR ‹_› ‹_›)
+      | (with_reducible exact asNum_nhL ‹_› ‹_›) | (with_reducible exact asNum_nhR ‹_› ‹_›)
+      | haz_step)
+  · rfl
+
+/-- Dispatch: EVERY modelled built-in. (`substr`, `subraw`, `hex` were excluded here while their signed index
+arithmetic was unguarded — former findings C01.bi.substr.overflow / subraw.overflow / hex.overflow; `abs` and `pow`
+were not modelled — former findings C01.bi.abs.overflow / C01.bi.pow.floatcast.) The length hypothesis is only
+needed by `substr` and `subraw`. -/
 theorem evalBuiltin_no_hazard_of (fmt : F64 → Bytes) (name : String) (args : List (Res Val)) (r : Res Val)
-    (hn : name ≠ "substr" ∧ name ≠ "subraw" ∧ name ≠ "hex") (h : ArgsOk args)
+    (h : ArgsOk args) (hl : name = "substr" ∨ name = "subraw" → ArgsLen args)
     (hr : evalBuiltin (m := Res) fmt name args = some r) : r.isHazard = false := by
   unfold evalBuiltin at hr
   split at hr
   all_goals first
-    | (exact absurd rfl hn.1) | (exact absurd rfl hn.2.1) | (exact absurd rfl hn.2.2)
     | (cases hr; first
+        | exact biSubstr_no_hazard args h (hl (.inl rfl)) | exact biSubraw_no_hazard args h (hl (.inr rfl))
         | exact lrSubstr_no_hazard _ args h | exact biStrpos_no_hazard args h | exact biReplace_no_hazard args h
         | exact strMap_no_hazard _ args h | exact biStrlen_no_hazard args h | exact biTokenize_no_hazard args h
+        | exact biHex_no_hazard args h | exact biAbs_no_hazard args h | exact biPow_no_hazard args h
         | exact biHash_no_hazard args h | exact biChr_no_hazard args h | exact biRaw_no_hazard args h
         | exact biInt_no_hazard args h | exact biB64_no_hazard _ args h | exact biStr_no_hazard fmt args h)
     | cases hr
